@@ -46,14 +46,17 @@ func anchors(epochTicks int64, epochUnix int64) []int64 {
 	return a
 }
 
-// genTicks draws a non-negative int64 tick count: uniform, or near an anchor.
+const sevenCenturies = int64(700*365*24*3600) * 10_000_000 // in ticks: 2.2e17
+
+// genTicks draws a non-negative int64 tick count: uniform, within seven centuries of the epoch, or
+// near an anchor.
 func genTicks(t *rapid.T, epochTicks int64, epochUnix int64, max int64) int64 {
 	switch rapid.IntRange(0, 5).Draw(t, "tickClass") {
 	case 0, 1:
 		return rapid.Int64Range(0, max).Draw(t, "ticks")
 	case 2:
-		// a date people use: 1601..2300
-		return rapid.Int64Range(0, 7*3600*24*365*1_000_0000/10).Draw(t, "ticksNear")
+		// a date people use: within 700 years of the epoch (1601..2300 for FILETIME, 1582..2282 for UUIDs)
+		return rapid.Int64Range(0, min(max, sevenCenturies)).Draw(t, "ticksNear")
 	default:
 		as := anchors(epochTicks, epochUnix)
 		a := as[rapid.IntRange(0, len(as)-1).Draw(t, "anchor")]
@@ -542,6 +545,102 @@ func TestUUIDSetTime(t *testing.T) {
 	maxUnix := wintime.Epoch1582Unix + maxUUIDTicks/10_000_000
 	vf.Rapid(s, vf.N(30000, 400000), func(t *rapid.T) timeCase { return tc(genTime(t, wintime.Epoch1582Unix, maxUnix)) },
 		checkUUIDSet, func(c timeCase) bool { y := c.T().Year(); return y < 1970 || y > 2100 })
+}
+
+// ---- results are values of their own -------------------------------------------------------------
+//
+// "Exact and mutually inverse" is a statement about the value a caller holds, and a caller holds it
+// while it converts the next one (the created / modified / accessed times of one file, the two
+// timestamps of a credential): what was obtained for instant A - the *FILETIME, the marshalled bytes,
+// the binary time - must still be A's after an unrelated instant B has been converted in other
+// variables. (A constructor that fills one shared instance and returns its address, or an encoder
+// that hands out slices of one buffer, satisfies every one-value comparison.)
+
+type pairCase struct {
+	A timeCase `json:"a"`
+	B timeCase `json:"b"`
+}
+
+func checkIndependence(c pairCase) []vf.Finding {
+	ta, tb := c.A.T(), c.B.T()
+	wa, wb := wintime.TimeToTicks(ta, wintime.Epoch1601Unix), wintime.TimeToTicks(tb, wintime.Epoch1601Unix)
+	if !wa.IsInt64() || wa.Sign() <= 0 || !wb.IsInt64() || wb.Sign() <= 0 {
+		return nil
+	}
+	ticksA := wa.Int64()
+	type kept struct {
+		who  string
+		live func() []byte
+		snap []byte
+	}
+	var ks []kept
+	keep := func(who string, b []byte) {
+		ks = append(ks, kept{who, func() []byte { return b }, append([]byte{}, b...)})
+	}
+	keepText := func(who string, s string) {
+		ks = append(ks, kept{who, func() []byte { return []byte(s) }, append([]byte{}, s...)})
+	}
+	// results for A ...
+	fa := data_structures.NewFILETIMEFromTime(ta)
+	if fa == nil {
+		return []vf.Finding{vf.F("NewFILETIMEFromTime", "nil-result", "%v", ta)}
+	}
+	lo, hi := fa.DwLowDateTime, fa.DwHighDateTime
+	if ma, err := fa.Marshal(); err == nil {
+		keep("FILETIME.Marshal", ma)
+	}
+	keepText("FILETIME.String", fa.String())
+	keepText("FILETIME.GetTimeString", fa.GetTimeString())
+	for _, v := range versions {
+		for _, src := range sources {
+			keep("ConvertToBinaryTime", kcutils.ConvertToBinaryTime(ta, src, key.KeyCredentialVersion{Value: v}))
+		}
+	}
+	da := kcutils.NewDateTime(uint64(ticksA))
+	keep("DateTime.ToBytes", da.ToBytes())
+	keepText("ldap.ConvertSecondsToLDAPDuration", ldap.ConvertSecondsToLDAPDuration(c.A.Sec%100_000_000))
+
+	// ... then the conversions of an unrelated instant B, in other variables ...
+	fb := data_structures.NewFILETIMEFromTime(tb)
+	if fb != nil {
+		if mb, err := fb.Marshal(); err == nil {
+			var back data_structures.FILETIME
+			back.Unmarshal(mb)
+			_ = back.GetTime()
+		}
+		_, _, _ = fb.GetTime(), fb.String(), fb.GetTimeString()
+	}
+	for _, v := range versions {
+		for _, src := range sources {
+			raw := kcutils.ConvertToBinaryTime(tb, src, key.KeyCredentialVersion{Value: v})
+			_ = kcutils.ConvertFromBinaryTime(raw, src, key.KeyCredentialVersion{Value: v})
+		}
+	}
+	db := kcutils.NewDateTime(uint64(wb.Int64()))
+	_ = db.ToBytes()
+	_ = ldap.ConvertSecondsToLDAPDuration(c.B.Sec % 100_000_000)
+
+	// ... and A's results are what they were.
+	var fs []vf.Finding
+	if fa.DwLowDateTime != lo || fa.DwHighDateTime != hi || fa.ToInt64() != int64(uint64(hi)<<32|uint64(lo)) {
+		fs = append(fs, vf.F("NewFILETIMEFromTime", "result-changes-when-another-value-is-processed", "the FILETIME returned for %v held %d; after NewFILETIMEFromTime(%v) it holds %d", ta.UTC(), int64(uint64(hi)<<32|uint64(lo)), tb.UTC(), fa.ToInt64()))
+	}
+	for _, k := range ks {
+		if now := k.live(); string(now) != string(k.snap) {
+			fs = append(fs, vf.F(k.who, "result-changes-when-another-value-is-processed", "result for %v was %x, is %x after %v was converted", ta.UTC(), k.snap, now, tb.UTC()))
+		}
+	}
+	if da.ToTicks() != uint64(ticksA) {
+		fs = append(fs, vf.F("NewDateTime", "result-changes-when-another-value-is-processed", "DateTime for %d ticks holds %d after NewDateTime(%d)", ticksA, da.ToTicks(), wb.Int64()))
+	}
+	return fs
+}
+
+func TestResultIndependence(t *testing.T) {
+	s := vf.Begin(t, P, "result-independence")
+	vf.Rapid(s, vf.N(6000, 90000), func(t *rapid.T) pairCase {
+		return pairCase{tc(genTime(t, wintime.Epoch1601Unix+1, maxFiletimeUnix)), tc(genTime(t, wintime.Epoch1601Unix+1, maxFiletimeUnix))}
+	}, checkIndependence, func(c pairCase) bool { return c.A.Sec != c.B.Sec || c.A.Nsec != c.B.Nsec })
 }
 
 // ---- sentinels, exhaustively listed ---------------------------------------------------------
